@@ -8,12 +8,27 @@ import (
 )
 
 type TableData struct {
-	rows       [][]any
+	rows       []sql.Row
 	autoIncVal uint64
 	autoCol    *sql.Column
 }
 
-type Table struct{ data *TableData }
+// rowStore is the interface through which rows are handed to the table (rule U).
+type rowStore interface {
+	Put(ctx *sql.Context, row sql.Row) error
+}
+
+type sliceStore struct{ data *TableData }
+
+func (s *sliceStore) Put(ctx *sql.Context, row sql.Row) error {
+	s.data.rows = append(s.data.rows, row)
+	return nil
+}
+
+type Table struct {
+	data  *TableData
+	store rowStore
+}
 
 var Uint64 sql.Type
 
@@ -41,7 +56,52 @@ func bumpSafe(ctx *sql.Context, col *sql.Column, p *uint64) {
 func bumpUnsafe(p *uint64) { *p = *p + 1 }
 
 // InsertExplicit is the correct monotone write followed by an increment.
-func (t *Table) InsertExplicit(ctx *sql.Context, row []any) error {
+func (t *Table) InsertExplicit(ctx *sql.Context, row sql.Row) error {
+	cmp, err := t.data.autoCol.Type.Compare(ctx, row[0], t.data.autoIncVal)
+	if err != nil {
+		return err
+	}
+	if cmp > 0 {
+		v, _, err := Uint64.Convert(ctx, row[0])
+		if err != nil {
+			return err
+		}
+		t.data.autoIncVal = v.(uint64)
+		bumpSafe(ctx, t.data.autoCol, &t.data.autoIncVal)
+	} else if cmp == 0 {
+		bumpSafe(ctx, t.data.autoCol, &t.data.autoIncVal)
+	}
+	t.data.rows = append(t.data.rows, row)
+	return nil
+}
+
+// InsertNoBump leaves the counter equal to the stored value in the larger-value arm. BUG (rule N).
+func (t *Table) InsertNoBump(ctx *sql.Context, row sql.Row) error {
+	if err := t.store.Put(ctx, row); err != nil {
+		return err
+	}
+	cmp, err := t.data.autoCol.Type.Compare(ctx, row[0], t.data.autoIncVal)
+	if err != nil {
+		return err
+	}
+	if cmp > 0 {
+		v, _, err := Uint64.Convert(ctx, row[0])
+		if err != nil {
+			return err
+		}
+		t.data.autoIncVal = v.(uint64)
+	}
+	if cmp == 0 {
+		bumpSafe(ctx, t.data.autoCol, &t.data.autoIncVal)
+	}
+	return nil
+}
+
+// InsertEqualNotBumped forgets the arm for a stored value equal to the counter. BUG (rule N).
+func (t *Table) InsertEqualNotBumped(ctx *sql.Context, row sql.Row) error {
+	if err := t.store.Put(ctx, row); err != nil {
+		return err
+	}
 	cmp, err := t.data.autoCol.Type.Compare(ctx, row[0], t.data.autoIncVal)
 	if err != nil {
 		return err
@@ -54,12 +114,78 @@ func (t *Table) InsertExplicit(ctx *sql.Context, row []any) error {
 		t.data.autoIncVal = v.(uint64)
 		bumpSafe(ctx, t.data.autoCol, &t.data.autoIncVal)
 	}
-	t.data.rows = append(t.data.rows, row)
 	return nil
 }
 
+// learn compares and stores, and leaves the increment to its caller (fine: unexported, callers are checked).
+func (t *Table) learn(ctx *sql.Context, cell any) (int, error) {
+	cmp, err := t.data.autoCol.Type.Compare(ctx, cell, t.data.autoIncVal)
+	if err != nil {
+		return 0, err
+	}
+	if cmp > 0 {
+		v, _, err := Uint64.Convert(ctx, cell)
+		if err != nil {
+			return 0, err
+		}
+		t.data.autoIncVal = v.(uint64)
+	}
+	return cmp, nil
+}
+
+// InsertSplit uses the helper and increments afterwards: correct.
+func (t *Table) InsertSplit(ctx *sql.Context, row sql.Row) error {
+	if err := t.store.Put(ctx, row); err != nil {
+		return err
+	}
+	cmp, err := t.learn(ctx, row[0])
+	if err != nil {
+		return err
+	}
+	if cmp >= 0 {
+		bumpSafe(ctx, t.data.autoCol, &t.data.autoIncVal)
+	}
+	return nil
+}
+
+// InsertSplitNoBump uses the helper and forgets the increment. BUG (rule N, reported at the caller).
+func (t *Table) InsertSplitNoBump(ctx *sql.Context, row sql.Row) error {
+	if err := t.store.Put(ctx, row); err != nil {
+		return err
+	}
+	_, err := t.learn(ctx, row[0])
+	return err
+}
+
+// Update stores the new row without looking at the counter. BUG (rule U).
+func (t *Table) Update(ctx *sql.Context, old, row sql.Row) error {
+	return t.store.Put(ctx, row)
+}
+
+// LoadAll learns every stored cell in a loop and increments once at the end: correct.
+func (t *Table) LoadAll(ctx *sql.Context, col *sql.Column) {
+	if !col.AutoIncrement {
+		return
+	}
+	t.data.autoIncVal = 0
+	for _, row := range t.data.rows {
+		cmp, err := t.data.autoCol.Type.Compare(ctx, row[0], t.data.autoIncVal)
+		if err != nil {
+			panic(err)
+		}
+		if cmp > 0 {
+			v, _, err := Uint64.Convert(ctx, row[0])
+			if err != nil {
+				panic(err)
+			}
+			t.data.autoIncVal = v.(uint64)
+		}
+	}
+	bumpSafe(ctx, t.data.autoCol, &t.data.autoIncVal)
+}
+
 // Insert sets the counter to whatever was inserted, even if smaller. BUG.
-func (t *Table) Insert(ctx *sql.Context, row []any) error {
+func (t *Table) Insert(ctx *sql.Context, row sql.Row) error {
 	v, _, err := Uint64.Convert(ctx, row[0])
 	if err != nil {
 		return err
